@@ -189,8 +189,29 @@ impl ToplevelDefinition {
     ) -> Result<bool, GrammarError> {
         match self {
             ToplevelDefinition::Type(t) => {
+                // an instance of a parameterized type is the type of the template, tag included
+                let template_tag = match &t.ty {
+                    ASN1Type::ElsewhereDeclaredType(e)
+                        if e.constraints
+                            .iter()
+                            .any(|c| matches![c, Constraint::Parameter(_)]) =>
+                    {
+                        match tlds.get(&e.identifier) {
+                            Some(ToplevelDefinition::Type(ToplevelTypeDefinition {
+                                tag,
+                                parameterization: Some(_),
+                                ..
+                            })) => tag.clone(),
+                            _ => None,
+                        }
+                    }
+                    _ => None,
+                };
                 if let Some(replacement) = t.ty.link_constraint_reference(&t.name, tlds)? {
                     t.ty = replacement;
+                    if t.tag.is_none() {
+                        t.tag = template_tag;
+                    }
                 }
                 Ok(true)
             }
